@@ -69,9 +69,20 @@ def run_verus_unit(name, template, canary=True, rlimit=None, builder=None):
         cres = vgen.run_verus(cf, work, rlimit=rlimit)
         cst, ctool = vgen.attribute(cf, cres)
         # tool errors in canary mode other than proof failures are still tool errors
-        if cst == 'tool':
-            ur.tool_errors += ['%s(canary): %s' % (name, t) for t in ctool]
         cans = [o for o in cf.obligs if o.kind == 'canary']
+        if cst == 'tool':
+            for t in ctool:
+                m = re.search(r'rlimit.*@(\d+)', t)
+                hit = False
+                if m:
+                    ln = int(m.group(1))
+                    for o in cans:
+                        fl = getattr(o, 'fn_lines', None) or o.lines
+                        if fl and fl[0] <= ln <= fl[1]:
+                            o.failed.append('resource limit while trying to prove `false` (not provable within the limit)')
+                            hit = True
+                if not hit and 'without attributable diagnostic' not in t:
+                    ur.tool_errors.append('%s(canary): %s' % (name, t))
         ur.canaries = len(cans)
         ur.canaries_ok = sum(1 for o in cans if o.failed)
         for o in cans:
@@ -129,6 +140,14 @@ def unit_l2(tier, seed):
 
 UNITS['l2'] = unit_l2
 
+
+def unit_msgl3(tier, seed):
+    import unit_msgl3
+    return run_verus_unit('msgl3', None, builder=unit_msgl3.build, canary=True)
+
+
+UNITS['msgl3'] = unit_msgl3
+
 # property -> units that carry obligations tagged with it
 PROPERTY_UNITS = {}
 PROPERTY_UNITS['C03'] = ['frame']
@@ -139,6 +158,11 @@ PROPERTY_UNITS['C18'] = ['sigtab']
 PROPERTY_UNITS['C07'] = ['l0bits']
 PROPERTY_UNITS['C08'] = ['dfvc', 'l1int', 'l0bits']
 PROPERTY_UNITS['C11'] = ['dfvc']
+PROPERTY_UNITS['C15'] = ['l2', 'l1int', 'l0bits']
+PROPERTY_UNITS['C14'] = ['msgl3', 'frame']
+PROPERTY_UNITS['C12'] = ['msgl3', 'l0bits']
+PROPERTY_UNITS['C09'] = ['msgl3', 'l2', 'l1int', 'l1enc', 'l0bits']
+PROPERTY_UNITS['C02'] = ['frame', 'msgl3', 'l2', 'l1int', 'l1enc', 'l0bits']
 
 PROPERTY_LEVEL = {'C07': 'other'}
 PROPERTY_EXPLANATION = {'C07': 'Kani/CBMC harnesses complete over values x widths x bit offsets x buffer contents for every carrier type; buffer length symbolic up to the window listed in bounded_stand_ins (bounded in that one dimension).'}
